@@ -695,6 +695,91 @@ from fractions import Fraction as _Fr
 Rat_tol = _Fr(1, 1000)
 
 
+def positional_step_dataflow(U, rep):
+  """R6.7 [AVN, opaque callees]: the positional restitution acts on the IMPACT velocity.  positional.pipeline.step is
+  interpreted with its kernels opaque (tagged uninterpreted results); collisions.resolve_velocity must receive
+    - as `xd_i_prev` the velocity returned by integrate_xdd (before the PBD projection project_xd overwrites it),
+    - a state whose x_i is resolve_position's result and whose xd_i is project_xd's result,
+    - the contact and the dlambda of resolve_position;
+  and the returned xd_i is integrate_xdv(project_xd(...), resolve_velocity(...))."""
+  f = U.func('brax.positional.pipeline.step')
+  PI_, PCOL, PJ_ = 'brax.positional.integrator', 'brax.positional.collisions', 'brax.positional.joints'
+  I = new_interp(U.repo)
+  n = 2
+  sysd = symsys.system('11', (-1, 0), nq=2, nv=2, nu=0, vel_damping=0, ang_damping=0, mj_model=None)
+  sysd.f['dof'] = Struct('DoF', {'motion': Struct('Motion', {'ang': symarr('da', (2, 3)), 'vel': symarr('dv', (2, 3))}, home='brax.base'),
+                                 'limit': None})
+  sysd.f['actuator'] = Struct('Actuator', {})
+  st = symsys.state_maxcoord(n, q=symarr('q', (2,)), qd=symarr('qd', (2,)))
+  cb = symsys.contact(([0], [1]))
+  TT = lambda tag, *a: Struct('Transform', {'pos': elemwise_tag(tag + 'p', (n, 3), a), 'rot': elemwise_tag(tag + 'r', (n, 4), a)}, home='brax.base')
+  MM = lambda tag, *a: Struct('Motion', {'ang': elemwise_tag(tag + 'a', (n, 3), a), 'vel': elemwise_tag(tag + 'v', (n, 3), a)}, home='brax.base')
+
+  def elemwise_tag(name, shape, args):
+    out = np.empty(shape, dtype=object)
+    flat = [x for a_ in args for l in I.leaves(a_) for x in asarr(l).ravel()]
+    for idx in np.ndindex(*shape):
+      out[idx] = uf(name, idx, *flat[:24])
+    return out
+  seen = {}
+  I.contracts[('brax.contact', 'get')] = lambda s_, x: cb
+  I.contracts[('brax.actuator', 'to_tau')] = lambda s_, a, q, qd: P_zeros((2,))
+  I.contracts[(PJ_, 'acceleration_update')] = lambda s_, state, tau: Struct('Force', {'ang': symarr('fa', (n, 3)), 'vel': symarr('fv', (n, 3))}, home='brax.base')
+  I.contracts[('brax.com', 'inv_inertia')] = lambda s_, x: symarr('Iinv', (n, 3, 3))
+  I.contracts[('brax.com', 'to_world')] = lambda s_, x_i, xd_i: (TT('w', x_i.f['pos'], x_i.f['rot']), MM('wd', xd_i.f['ang'], xd_i.f['vel'], x_i.f['pos']))
+
+  def c_xdd(s_, x_i, xd_i, xdd_i):
+    seen['xdd'] = (TT('ix', x_i.f['pos'], xdd_i.f['vel']), MM('ixd', xd_i.f['vel'], xdd_i.f['vel'], xdd_i.f['ang']))
+    return seen['xdd']
+  I.contracts[(PI_, 'integrate_xdd')] = c_xdd
+  I.contracts[(PJ_, 'position_update')] = lambda s_, state: seen.setdefault('pos', TT('jp', state.f['x_i'].f['pos']))
+
+  def c_rp(s_, state, x_i_prev, c):
+    seen['rp_args'] = (state, x_i_prev, c)
+    seen['rp'] = (TT('rp', state.f['x_i'].f['pos']), symarr('dlam', (1,)))
+    return seen['rp']
+  I.contracts[(PCOL, 'resolve_position')] = c_rp
+
+  def c_proj(s_, x, x_prev):
+    seen['proj_args'] = (x, x_prev)
+    seen['proj'] = MM('pj', x.f['pos'], x_prev.f['pos'])
+    return seen['proj']
+  I.contracts[(PI_, 'project_xd')] = c_proj
+
+  def c_rv(s_, state, xd_i_prev, c, dlambda):
+    seen['rv_args'] = (state, xd_i_prev, c, dlambda)
+    seen['rv'] = MM('rv', xd_i_prev.f['vel'], state.f['xd_i'].f['vel'])
+    return seen['rv']
+  I.contracts[(PCOL, 'resolve_velocity')] = c_rv
+
+  def c_xdv(s_, xd_i, xdv_i):
+    seen['xdv_args'] = (xd_i, xdv_i)
+    seen['xdv'] = MM('iv', xd_i.f['vel'], xdv_i.f['vel'])
+    return seen['xdv']
+  I.contracts[(PI_, 'integrate_xdv')] = c_xdv
+  I.contracts[(K, 'world_to_joint')] = lambda s_, x, xd: (T('jn', (n,)), M('jdn', (n,)), T('apn', (n,)), T('acn', (n,)))
+  I.contracts[(K, 'inverse')] = lambda s_, j, jd: (symarr('qn', (2,)), symarr('qdn', (2,)))
+  out = I.apply(fn('brax.positional.pipeline', 'step'), [sysd, st, symarr('u', (0,))], {})
+  need = ('xdd', 'rp', 'proj', 'rv_args', 'xdv_args')
+  if any(k not in seen for k in need):
+    rep.note('R6.7 undecided: positional.pipeline.step no longer goes through %s' % ', '.join(k for k in need if k not in seen))
+    return
+  sm = lambda a, b: all(same(x, y) for x, y in zip(I.leaves(a), I.leaves(b)))
+  st_rv, prev_rv, c_rv_, dl_rv = seen['rv_args']
+  checks = [
+      (sm(prev_rv, seen['xdd'][1]), 'resolve_velocity receives as xd_i_prev the velocity returned by integrate_xdd (before project_xd)'),
+      (sm(st_rv.f['xd_i'], seen['proj']), 'the state handed to resolve_velocity carries the projected velocity project_xd(...)'),
+      (sm(st_rv.f['x_i'], seen['rp'][0]), 'the state handed to resolve_velocity carries the positions resolved by resolve_position'),
+      (same(dl_rv, seen['rp'][1]) and c_rv_ is cb, 'resolve_velocity receives the contact and the dlambda of resolve_position'),
+      (sm(seen['proj_args'][0], seen['rp'][0]) and sm(seen['proj_args'][1], st.f['x_i']), 'project_xd(x_i after resolve_position, x_i before the step)'),
+      (sm(seen['xdv_args'][0], seen['proj']) and sm(seen['xdv_args'][1], seen['rv']) and sm(out.f['xd_i'], seen['xdv']),
+       'the returned xd_i is integrate_xdv(projected velocity, resolve_velocity(...))'),
+  ]
+  for ok, what in checks:
+    rep.check(ok, 'R6.7', 'positional.pipeline.step: ' + what, 'in positional.pipeline.step it is not true that ' + what +
+              ' -- the restitution / friction of the velocity pass would act on the wrong velocity', where=f.where(), construct=what)
+
+
 def run(U, rep, tier):
   world_immovable(U, rep, tier)
   contacts(U, rep, tier)
@@ -703,6 +788,11 @@ def run(U, rep, tier):
   generalized_limits(U, rep)
   push_only(U, rep)
   spring_restitution(U, rep, tier)
+  positional_step_dataflow(U, rep)
+  # R6.8: the pipelines regroup links through scan.tree / scan.link_types / _take -- specified for every forest of the
+  # bounded universe (shared with C01 R1.2)
+  from braxlint.props import c01
+  c01.scan_spec(U, rep, tier, rule='R6.8')
   # R6.6: limits whose range does not contain 0 are inert for a system at rest inside them -- the quantity a limit must
   # NOT act on (a slide's rotation angle, a hinge's offset) is 0, outside such a range (shared with C04 R4.5)
   from braxlint.props import c04
